@@ -14,11 +14,11 @@
 package main
 
 import (
-	"math/rand"
 	"context"
 	"encoding/json"
 	"errors"
 	"fmt"
+	"math/rand"
 	"os"
 	"path/filepath"
 	"runtime"
@@ -29,6 +29,7 @@ import (
 	"time"
 
 	"go.mongodb.org/mongo-driver/bson"
+	"go.mongodb.org/mongo-driver/mongo"
 	"go.mongodb.org/mongo-driver/mongo/options"
 
 	"github.com/256dpi/lungo"
@@ -485,7 +486,8 @@ func faults(dir string, seed int64, runs int, table *enc.Table, trace *util.NDJS
 			util.Die("open: %v", err)
 		}
 		coll := client.Database("d").Collection("c")
-		coll.InsertOne(context.Background(), d("_id", int32(0), "n", int32(0)))
+		coll.InsertOne(context.Background(), d("_id", int32(0), "n", int32(0), "s", "text"))
+		coll.InsertOne(context.Background(), d("_id", int32(-1), "s", "text"))
 		sched.Install()
 		var wg sync.WaitGroup
 		closeAt := -1
@@ -591,8 +593,23 @@ func faults(dir string, seed int64, runs int, table *enc.Table, trace *util.NDJS
 								cancel()
 								cs.Close(context.Background())
 							}
-						case x < 90:
+						case x < 85:
 							coll.Find(context.Background(), d())
+						case x < 92:
+							// calls that are refused after the writer slot was taken: an index build over duplicates (alone and
+							// as the second of two), a duplicate key, an update that fails on the document, a drop of nothing
+							switch rr.N(5) {
+							case 0:
+								coll.Indexes().CreateOne(context.Background(), dbt.MongoIndex(d("dup", int32(1)), true, nil))
+							case 1:
+								coll.Indexes().CreateMany(context.Background(), []mongo.IndexModel{dbt.MongoIndex(d("n", int32(1)), false, nil), dbt.MongoIndex(d("dup", int32(-1)), true, nil)})
+							case 2:
+								coll.InsertOne(context.Background(), d("_id", int32(0)))
+							case 3:
+								coll.UpdateMany(context.Background(), d(), d("$inc", d("s", int32(1))))
+							default:
+								coll.Indexes().DropOne(context.Background(), "nothing_1")
+							}
 						default:
 							coll.UpdateOne(context.Background(), d("_id", int32(0)), d("$inc", d("n", int32(1))))
 						}
